@@ -205,7 +205,7 @@ def seq_oracle(case_text, real_lines):
     last_state, dirty, after_open = None, True, False
     for l in lines:
         t = l.split()
-        if t[0] in ("cfg", "plant", "mkdir"):
+        if t[0] in ("cfg", "plant", "mkdir", "fault"):
             continue
         if t[0] == "obs":
             if obs_i >= len(obs_blocks):
@@ -282,7 +282,7 @@ def seq_oracle(case_text, real_lines):
 
 def op_lines(case_text):
     return [l for l in case_text.splitlines()
-            if l and not l.startswith(("case ", "end", "cfg ", "obs", "plant ", "mkdir "))]
+            if l and not l.startswith(("case ", "end", "cfg ", "obs", "plant ", "mkdir ", "fault "))]
 
 
 def split_crash_blocks(lines):
@@ -528,4 +528,70 @@ def fault_oracle(case_text, real_lines, header):
                 open_failed = True
             else:
                 open_failed = False
+    return fails
+
+
+# ---------------------------------------------------------------------------------------------
+# damage-all oracle (C10)
+
+def payload_len(op):
+    if op.startswith("put:"):
+        _, k, h, s = op.split(":")
+        return 1 + 4 + (0 if k == "-" else len(k) // 2) + 32 + 8
+    ks = op[3:].split("|") if op[3:] else []
+    return 1 + 4 + sum(4 + (0 if k == "-" else len(k) // 2) for k in ks)
+
+
+def damage_oracle(case_text, real_lines):
+    """every D line: the open fails with an error, or yields exactly the state after the longest
+    undamaged prefix of the logged operations; never a panic, hang or crash.
+    returns [(tag, where, message)] with tags damage_accepted / damage_panic"""
+    fails = []
+    cfg = case_cfg([l for l in case_text.splitlines() if l])
+    kt = cfg["kt"]
+    segs, snap_ver, snap_state = {}, 0, {}
+    for l in real_lines:
+        if l.startswith("Z L "):
+            seg, recs, tail = parse_L(l[2:])
+            segs[seg] = recs
+        elif l.startswith("Z S index ") and not l.startswith("Z S index bad"):
+            snap = l[len("Z S index "):]
+            snap_ver = int(snap.split()[0][4:])
+            for e in snap.split(" ", 1)[1][1:-1].split(";"):
+                if e:
+                    kk, v = e.split("="); h, sz = v.split(":")
+                    snap_state[kk] = (h, int(sz))
+    def render(st):
+        ks = sorted(st, key=lambda k: gen.sort_key(kt, unhex(k)))
+        return "entries:[" + ";".join(f"{k}={st[k][0]}:{st[k][1]}" for k in ks) + "]"
+    for l in real_lines:
+        if not l.startswith("D "):
+            continue
+        t = l.split()
+        seg = int(t[1].split("_")[0])
+        pos = int(t[3])
+        res = l.split(" -> ", 1)[1]
+        if res.startswith(("exit=", "hang", "err:panic")) or res == "":
+            fails.append(("damage_panic", l.split(" -> ")[0], f"open on a damaged log did not return cleanly: {l[:200]}")); continue
+        if res.startswith("err:"):
+            continue
+        # accepted: must be the prefix state
+        st = dict(snap_state)
+        done = False
+        for sid in sorted(segs):
+            off = 0
+            for v, op in segs[sid]:
+                ln = 44 + payload_len(op)
+                if sid == seg and off <= pos < off + ln:
+                    done = True; break
+                if sid > seg:
+                    done = True; break
+                if v > snap_ver:
+                    apply_logged(st, op)
+                off += ln
+            if done:
+                break
+        got = res.split(" ", 1)[1] if " " in res else ""
+        if got != render(st):
+            fails.append(("damage_accepted", l.split(" -> ")[0], f"damaged log silently accepted: recovered {got[:300]}, longest undamaged prefix gives {render(st)[:300]}"))
     return fails
